@@ -9,8 +9,8 @@ use serde_json::{json, Value};
 use std::sync::{Arc, Mutex};
 
 // (U+2028 / U+2029 / U+0085 are no line breaks for the parser: values holding them must come through unchanged)
-const VALS: [&str; 32] = ["", " ", "   ", "a", "a b", " a ", "x=y", "\\", "a\\b", "é", "0", "false", "-r", "two  spaces", "\t", "a\t", "\ta", "a\tb", "\u{a0}", "=a", "=", "a=", ":a", "!a", "a b\\", "C:\\my dir\\", "x\\",
-    "a\u{2028}b", "a\u{2029}b c", "x\u{85}y", "a\u{b}b", "\u{feff}a b"];
+const VALS: [&str; 37] = ["", " ", "   ", "a", "a b", " a ", "x=y", "\\", "a\\b", "é", "0", "false", "-r", "two  spaces", "\t", "a\t", "\ta", "a\tb", "\u{a0}", "=a", "=", "a=", ":a", "!a", "a b\\", "C:\\my dir\\", "x\\",
+    "a\u{2028}b", "a\u{2029}b c", "x\u{85}y", "a\u{b}b", "\u{feff}a b", "100%$5", "a$%b", "%$", "$$", "%%x"];
 
 pub fn gen(r: &mut Rng) -> Value {
     if r.chance(1, 5) {
